@@ -66,7 +66,8 @@ fn main() {
         let mut rng = Rng::new(args.seed);
         let n_inputs = args.num("inputs", 40, 300) as usize;
         // directed programs that are part of every run: two equally eligible candidates on diverging paths
-        let fixed: Vec<Recipe> = Recipe::always_diverge();
+        let mut fixed: Vec<Recipe> = Recipe::always_diverge();
+        fixed.extend(Recipe::always_isolated());
         let n_fixed = fixed.len();
         for i in 0..n_inputs + n_fixed {
             let mut rc = if i < n_fixed {
@@ -75,7 +76,7 @@ fn main() {
                 match if args.extra.contains_key("only_deep_chain") { 8 } else { rng.below(12) } {
                     0..=3 => Recipe::random_program(&mut rng),
                     4..=6 => Recipe::random_shared(&mut rng),
-                    7 => Recipe::random_diverge(&mut rng),
+                    7 => if rng.chance(1, 2) { Recipe::random_diverge(&mut rng) } else { Recipe::random_isolated(&mut rng) },
                     8 => Recipe::random_deep_chain(&mut rng),
                     _ => Recipe::random_gadget(&mut rng),
                 }
